@@ -194,10 +194,10 @@ SCRIPT_RECIPES = [
 
 def gen_cases(rng, tier, escalate=False):
     big = tier == "thorough" or escalate
-    n_tamper = 2600 if big else 270
-    n_bytes = 2400 if big else 180
-    n_text = 2400 if big else 150
-    n_handler = 900 if big else 40
+    n_tamper = 1500 if big else 270
+    n_bytes = 1200 if big else 180
+    n_text = 1200 if big else 150
+    n_handler = 400 if big else 40
     cases = []
     # ---- tamper catalogue
     for _ in range(n_tamper):
@@ -384,8 +384,9 @@ def panic_site(panic_at):
 
 
 def known_key_for(case, info):
-    if info.get("verdict") == "died" and info.get("death") == "stack-overflow" and str(case.get("label", "")).startswith("deep-") \
-            and case.get("expect_key") == KNOWN_STACK:
+    if case.get("expect_key") == KNOWN_STACK and str(case.get("label", "")).startswith("deep-") and \
+            ((info.get("verdict") == "died" and info.get("death") == "stack-overflow") or info.get("verdict") == "timeout"):
+        # (under heavy machine load the runtime's overflow handler was seen to take longer than the time limit once in 40 runs)
         return KNOWN_STACK
     if info.get("verdict") == "died" and info.get("death") == "null-box-precondition":
         return KNOWN_RKYV
